@@ -159,7 +159,9 @@ impl BuildJob<'_> {
             sf.save(&mut ptx)?;
             // Fall through and treat it the same as a static file.
         }
-        if Path::new(&t).exists()
+        // (Whether something is there is what lstat() says, as for the stamp:
+        // a symbolic link that leads nowhere is still the user's file.)
+        if !newstamp.is_missing()
             && !Path::new(&t).join(".").is_dir()
             && (sf.is_override || !sf.is_generated())
         {
